@@ -42,6 +42,9 @@ pub const URIS: &[&str] = &[
     "http://a.test|b.test",
     "http://b.test|a.test",
     "http://a.test|a.test",
+    // userinfo in the authority: part of the key as the library builds it; must never merge different ports
+    "http://u:p@a.test:8080",
+    "http://x@a.test",
 ];
 
 #[derive(Debug)]
@@ -392,9 +395,12 @@ async fn run_case(line: String) -> String {
                 let (u, p) = rest.split_once('.').unwrap();
                 let u: usize = u.parse().unwrap();
                 let rid = futs.len();
-                let (base, host_hdr) = match URIS[u].split_once('|') {
+                // table indices >= 100 are synthetic origins http://o<u>.test (histories over hundreds of origins)
+                let synthetic = format!("http://o{u}.test");
+                let entry: &str = if u >= 100 { &synthetic } else { URIS[u] };
+                let (base, host_hdr) = match entry.split_once('|') {
                     Some((b, h)) => (b, Some(h)),
-                    None => (URIS[u], None),
+                    None => (entry, None),
                 };
                 let uri = format!("{}/r{}", base, rid);
                 let version = if p == "2" { http::Version::HTTP_2 } else { http::Version::HTTP_11 };
@@ -402,7 +408,7 @@ async fn run_case(line: String) -> String {
                 *req.uri_mut() = uri.parse().unwrap();
                 *req.version_mut() = version;
                 if let Some(h) = host_hdr {
-                    req.headers_mut().insert(http::header::HOST, http::HeaderValue::from_static(h));
+                    req.headers_mut().insert(http::header::HOST, http::HeaderValue::from_str(h).unwrap());
                 }
                 w.lock().unwrap().reqs.push(Req::default());
                 let fut = tower::Service::call(&mut svc, req);
@@ -550,7 +556,8 @@ fn main() {
     let mut o = out();
     if std::env::args().nth(1).as_deref() == Some("--uris") {
         // oracle O7: how the http crate decomposes the URI table
-        for u in URIS {
+        let synth: Vec<String> = (0..400).map(|u| if u < URIS.len() { URIS[u].to_string() } else if u < 100 { String::new() } else { format!("http://o{u}.test") }).collect();
+        for u in synth.iter().map(|s| s.as_str()) {
             if u.is_empty() {
                 emit(&mut o, "- -");
                 continue;
